@@ -139,7 +139,7 @@ func c30Model(c *ev.Ctx, r *rand.Rand, caseN int) {
 }
 
 func c30Blocking(c *ev.Ctx, r *rand.Rand, caseN int) {
-	kind := caseN % 6
+	kind := caseN % 7
 	T := time.Duration(60+r.Intn(60)) * time.Millisecond
 	const margin = time.Second
 	scenario := func() (string, map[string]interface{}) {
@@ -230,6 +230,54 @@ func c30Blocking(c *ev.Ctx, r *rand.Rand, caseN int) {
 				}
 				return "acquire-blocked-past-timeout-with-insufficient-releases", d
 			}
+		case 6: // two waiters with different timeouts, nobody releases: each returns false at ITS OWN deadline
+			long := T + 1500*time.Millisecond
+			resL, resS := make(chan time.Duration, 1), make(chan time.Duration, 1)
+			go func() {
+				if s.Acquire(c30m(2, 50), long) {
+					resL <- -1
+				} else {
+					resL <- took()
+				}
+			}()
+			time.Sleep(5 * time.Millisecond)
+			go func() {
+				if s.Acquire(c30m(2, 50), T) {
+					resS <- -1
+				} else {
+					resS <- took() - 5*time.Millisecond
+				}
+			}()
+			for k := 0; k < 2; k++ {
+				select {
+				case tS := <-resS:
+					d["short_returned_after"] = tS.String()
+					if tS < 0 {
+						return "unsatisfiable-request-granted", d
+					}
+					if tS < T-2*time.Millisecond {
+						return "request-refused-before-its-timeout", d
+					}
+					if tS > T+margin {
+						return "request-refused-long-after-its-timeout", d
+					}
+				case tL := <-resL:
+					d["long_returned_after"] = tL.String()
+					if tL < 0 {
+						return "unsatisfiable-request-granted", d
+					}
+					if tL < long-2*time.Millisecond {
+						return "request-refused-before-its-timeout", d
+					}
+					if tL > long+margin {
+						return "request-refused-long-after-its-timeout", d
+					}
+				case <-time.After(long + 3*time.Second):
+					d["still_blocked_after"] = took().String()
+					s.Terminate()
+					return "acquire-blocked-past-timeout-with-another-waiter", d
+				}
+			}
 		default: // Terminate wakes every waiter with false; later non-empty requests are refused
 			for k := 0; k < 3; k++ {
 				go func() { res <- s.Acquire(c30m(2, 50), 10*time.Second) }()
@@ -259,7 +307,7 @@ func c30Blocking(c *ev.Ctx, r *rand.Rand, caseN int) {
 	c.Eval(1)
 	c.Count(fmt.Sprintf("blocking_scenarios_kind_%d", kind), 1)
 	if cls != "" {
-		detail["scenario_kind"] = []string{"fits", "oversize", "granted after release", "no release", "insufficient releases", "terminate"}[kind]
+		detail["scenario_kind"] = []string{"fits", "oversize", "granted after release", "no release", "insufficient releases", "terminate", "two waiters with different timeouts"}[kind]
 		c.Violation(cls, detail)
 		return
 	}
